@@ -10,7 +10,7 @@ import traceback
 import z3
 
 SOLVER_TIMEOUT_MS = int(os.environ.get("CGV_SOLVER_TIMEOUT_MS", "120000"))
-z3.set_param("memory_max_size", int(os.environ.get("CGV_Z3_MEM_MB", "3000")))  # a runaway query raises instead of being OOM-killed
+z3.set_param("memory_max_size", int(os.environ.get("CGV_Z3_MEM_MB", "6000")))  # a runaway query raises instead of being OOM-killed
 
 
 class HarnessError(Exception):
@@ -161,7 +161,8 @@ class Ctx:
             txt = "(set-logic ALL)\n" + s.to_smt2()
         except Exception:  # noqa
             return
-        if len(txt) > 2_000_000:
+        if len(txt) > 2_000_000 or "\\" in txt:
+            self.count("cross_skipped_unexportable")  # e.g. escaped identifiers: cvc5 rejects a backslash inside |quoted| symbols
             return
         self.count("cross_checked")
         with tempfile.NamedTemporaryFile("w", suffix=".smt2", prefix="cgv_x_", delete=True) as f:
